@@ -55,6 +55,13 @@ class Env:
         self.running[key] -= 1
 
 
+def _stable_key(nt: Any):
+    step = getattr(nt, "step_name", None)
+    if step is not None:
+        return (0, str(step), int(getattr(nt, "worker_id", 0)))
+    return (1, "", int(getattr(nt, "sequence", 0) or 0))
+
+
 class SymAdapter(InternalAsyncioAdapter):
     def __init__(self, base: InternalAsyncioAdapter, env: Env) -> None:
         self.__dict__.update(base.__dict__)
@@ -65,7 +72,9 @@ class SymAdapter(InternalAsyncioAdapter):
 
     async def wait_for_next_task(self, running, pending, timeout=None):
         started = [p.start(asyncio.create_task(p.coro)) for p in pending]
-        named = list(running) + started
+        # the runner builds `running` by iterating a SET of tasks (order = object addresses): sort by the task's stable
+        # name (step, worker id; the pull last) so that a schedule index means the same task in every process
+        named = sorted(list(running) + started, key=_stable_key)
         while True:
             for _ in range(8):  # let started tasks run until they block
                 await asyncio.sleep(0)
